@@ -49,7 +49,10 @@ pub const HISTORY_PLIES: [usize; 8] = [0, 0, 0, 0, 40, 160, 300, 380];
 /// (a documented heuristic at the root). So that this heuristic stays out of the way of what C10 judges,
 /// the record is built so that it does NOT end in such a pattern: the last cycle uses another opponent
 /// move than the one before it; if the position offers no two such cycles, the record is one cycle long.
-fn game_with_history(p: &Pos, plies: usize, max_halfmove: u64) -> Result<(Game, usize), Fail> {
+/// `avoid` = the key moves of the label. One record in two (chosen from the position) ENDS in the pattern the
+/// repetition heuristic looks for, built from a cycle whose own first move is not a key: the heuristic then removes
+/// that shuffle move from the root list and nothing else, so every key is still available and the label still binds.
+fn game_with_history(p: &Pos, plies: usize, max_halfmove: u64, avoid: &[String]) -> Result<(Game, usize), Fail> {
     // the two counter fields of the FEN are varied too (a checkmate stands even when it is delivered by the move that
     // completes the fifty moves, so a mate in one may start from a clock of 99 and a mate in two from 96)
     let fp = fp_pos(p);
@@ -68,6 +71,25 @@ fn game_with_history(p: &Pos, plies: usize, max_halfmove: u64) -> Result<(Game, 
     let mut done = 0;
     if plies >= 4 {
         let cycles = shuffle_cycles(p);
+        let with_pattern = (fp >> 40) % 2 == 0;
+        let pattern_cycle = cycles.iter().copied().find(|c| !avoid.contains(&c[0].uci()));
+        if let (true, Some(c)) = (with_pattern && plies >= 8, pattern_cycle) {
+            for _ in 0..plies / 4 {
+                for m in c {
+                    let Some(em) = crate::eng::find_legal(&mut g, &m.uci()) else {
+                        return Err(Fail::new("legal-move-not-offered", format!("{} in {}", m.uci(), g.fen())));
+                    };
+                    g.push_history(em);
+                }
+                done += 4;
+            }
+            // harness self-check: the pattern is there and the move it removes is not a key
+            let ms = g.move_stack();
+            if !(ms.len() >= 5 && ms[ms.len() - 1] == ms[ms.len() - 5]) || avoid.contains(&ms[ms.len() - 4].uci_notation()) {
+                return Err(Fail::new("harness", "history does not end in the intended repetition pattern".into()));
+            }
+            return Ok((g, done + 1_000_000));
+        }
         if let Some(first) = cycles.first().copied() {
             let last = cycles.iter().copied().find(|c| c[1] != first[1] && c[3] != first[3]);
             let total_cycles = match last {
@@ -345,7 +367,17 @@ impl C10 {
     fn judge(&self, p: &Pos, lab: Label, via_uci: bool, history: u8, ev: &mut Ev) -> Result<(), Fail> {
         let p_fen = p.fen6();
         let case = |via: bool| serde_json::to_value(MateCase::Fen { fen: p_fen.clone(), via_uci: via, history }).unwrap();
-        let (g, plies_done) = game_with_history(p, HISTORY_PLIES[history as usize % HISTORY_PLIES.len()], if lab == Label::Mate2 { 96 } else { 99 })?;
+        let label_keys: Vec<String> = match lab {
+            Label::Mate1 => mate_in_1_moves(p).iter().map(|m| m.uci()).collect(),
+            Label::Mate2 => mate_in_2_moves(p).iter().map(|m| m.uci()).collect(),
+            _ => Vec::new(),
+        };
+        let (g, plies_done) = game_with_history(p, HISTORY_PLIES[history as usize % HISTORY_PLIES.len()], if lab == Label::Mate2 { 96 } else { 99 }, &label_keys)?;
+        let ends_in_pattern = plies_done >= 1_000_000;
+        let plies_done = plies_done % 1_000_000;
+        if ends_in_pattern {
+            ev.class("labelled_positions_whose_record_ends_in_the_repetition_pattern");
+        }
         let fen = if plies_done > 0 { format!("{} (at the end of a game record of {} plies)", p_fen, plies_done) } else { p_fen.clone() };
         if plies_done > 0 {
             ev.class(if plies_done >= 160 { "labelled_positions_after_160_or_more_plies_of_history" } else { "labelled_positions_after_40_plies_of_history" });
@@ -500,7 +532,7 @@ impl Prop for C10 {
     }
 
     fn rule(&self) -> String {
-        "Cases: random small-material positions (kings + 1-6 men), themed small positions (defender king caged in a corner by its own men against king + minor pieces / pawns; attacker pawn on the seventh rank beside the defender king - promotion, under-promotion and promotion-capture mates; all mirrored and colour-swapped; positions built so that castling, respectively an en-passant capture, is a mate in one) and ends of generated walks, labelled by the reference model's own solver: no legal move; mate in 1; forced mate in 2 (no mate in 1; a move after which the opponent has a reply and every reply allows mate in 1); everything else is counted as an unlabelled candidate and not searched. Fresh table each time; the halfmove-clock and move-number fields of the imported FEN are varied (clock 0-99 for mates in one and dead roots, 0-96 for mates in two: a checkmate stands even when it completes the fifty moves); half of the labelled positions stand at the end of a game record of 40, 160, 300 or 380 plies (both sides shuffling a piece out and back), as after `position … moves …`. Mate in 1: depth 3, 4, 5 and an unlimited search must return a mating move, and the unlimited search must return by itself with no iteration beyond depth 5. Mate in 2: depth 5, 6 and unlimited must return a key move or a move after which the model can still prove a forced mate within 3 more moves (solver budget exhaustion = inconclusive); unlimited search must end by itself at depth <= 7. No legal move: the search returns no move (and the binary prints `bestmove none`). A sample goes through the real binary. Thorough adds the exhaustive KQK and KRK tables. evaluations = searches judged. Non-trivial = every labelled position; distinct by position.".into()
+        "Cases: random small-material positions (kings + 1-6 men), themed small positions (defender king caged in a corner by its own men against king + minor pieces / pawns; attacker pawn on the seventh rank beside the defender king - promotion, under-promotion and promotion-capture mates; all mirrored and colour-swapped; positions built so that castling, respectively an en-passant capture, is a mate in one) and ends of generated walks, labelled by the reference model's own solver: no legal move; mate in 1; forced mate in 2 (no mate in 1; a move after which the opponent has a reply and every reply allows mate in 1); everything else is counted as an unlabelled candidate and not searched. Fresh table each time; the halfmove-clock and move-number fields of the imported FEN are varied (clock 0-99 for mates in one and dead roots, 0-96 for mates in two: a checkmate stands even when it completes the fifty moves); half of the labelled positions stand at the end of a game record of 40, 160, 300 or 380 plies (both sides shuffling a piece out and back), as after `position … moves …`; half of these records end in the very pattern the root repetition heuristic looks for, built from a cycle whose own first move is not a key of the label, so that the heuristic removes that shuffle move and every key stays available. Mate in 1: depth 3, 4, 5 and an unlimited search must return a mating move, and the unlimited search must return by itself with no iteration beyond depth 5. Mate in 2: depth 5, 6 and unlimited must return a key move or a move after which the model can still prove a forced mate within 3 more moves (solver budget exhaustion = inconclusive); unlimited search must end by itself at depth <= 7. No legal move: the search returns no move (and the binary prints `bestmove none`). A sample goes through the real binary. Thorough adds the exhaustive KQK and KRK tables. evaluations = searches judged. Non-trivial = every labelled position; distinct by position.".into()
     }
 
     fn assumptions(&self) -> Vec<String> {
